@@ -28,7 +28,9 @@ PLAN = dict(
          "steps label-collision-probe-* compile the witnesses of the known finding label-collision-name-digits instantiated for the CURRENT "
          "value of the label counter (harness/src/c14probe.rs). Non-trivial: every case; tags: label count (log2), imm64, table, spills, "
          "movk, print, mem, kb<code size>, guard | name-digits | noguard (was the program inside Sem/LabelGuard.labels_guard, the "
-         "hypothesis of the label theorems), open-calls, far-branch (RISC-V conditional branch beyond +-4 KiB even with the smallest "
+         "hypothesis of the label theorems), open-calls, thm | out:<first failing hypothesis> (x86-64: inside ALL hypotheses of "
+         "C14_x86_compile_asm_wf = Sem/WfGuard.wf_guard_x86; a real output failing asm_wf inside them is VIOL "
+         "class=asm-wf-theorem-contradicted), small-thm (inside C14_x86_compile_code_small), far-branch (RISC-V conditional branch beyond +-4 KiB even with the smallest "
          "encodings: not a violation, label-relative reach is resolved by the assembler)",
     explanation="theorems (Props/C14.v): x86 jump-table stride / jump_length = the crate's / encodability of all selected arithmetic, move, literal "
                 "and comparison instructions (round 1); round 2: label uniqueness and definedness PROVED for the generic code generator and every "
@@ -37,7 +39,13 @@ PLAN = dict(
                 "monotone counter, labels of a later call fresh; the guard cannot be dropped (C14_compile_labels_unique_refuted = known finding "
                 "label-collision-name-digits: VIOL class=label-collision-name-digits iff a label is defined twice AND LabelGuard.name_digits holds; "
                 "any other duplicate stays class=asm-ill-formed*); jump-table stride for AArch64 (B) and RISC-V (JAL x0). Encodability on "
-                "AArch64 / RISC-V is checked on the implementation's output, not proved",
+                "AArch64 / RISC-V is checked on the implementation's output, not proved; round 3 (x86-64): asm_wf cs = None is a THEOREM for the complete "
+                "output of x86_compile (C14_x86_compile_asm_wf: every emitted instruction encodable incl. memory operations, table jumps, push/pop, "
+                "calls, prologue/epilogue; labels unique and defined; externs declared, never shadowed) under boolean guards on the program "
+                "(labels_guard, calls_guard, lin_check_prog, plain_names, plain_types, imm_guard = literals 64-bit / Substitute <= 2^31 pairs / "
+                "types <= 2^28 xtors), code_small under size_guard (cg_bound_defs <= 2^40, from C19); the linear discipline cannot be dropped "
+                "(C14_x86_compile_asm_wf_lin_needed: imul [mem], reg); step wf-x86 tags thm / out:<hypothesis> / small-thm and answers "
+                "VIOL class=asm-wf-theorem-contradicted when a real program inside the hypotheses fails asm_wf",
     assumptions=["instr_wf of Sem/X86Wf.v, Sem/A64Wf.v, Sem/RVWf.v follow the Intel SDM / Arm ARM / RISC-V unprivileged ISA encodings of the forms the printers emit",
                  "GNU as acceptance of the printed x86-64 text is exercised by the native step of C01; no AArch64 / RISC-V assembler exists in the sandbox "
                  "(the RISC-V text of this back end has no accepted concrete syntax: registers X5, no commas, `LW X5 8 X6`)",
